@@ -2125,7 +2125,9 @@ class GAM(Core, MetaTermMixin):
 
         # copy over the best
         if keep_best:
-            self.set_params(deep=True, force=True, **best_model.get_params(deep=True))
+            self.set_params(
+                deep=True, force=True, **deepcopy(best_model.get_params(deep=True))
+            )
         if return_scores:
             return OrderedDict(zip(models, scores))
         else:
